@@ -394,9 +394,9 @@ Scenario expandEditor(uint64_t seed) {
     }
     if (r.chance(1, 3)) edit();
   };
-  int nlines = (int)r.pick({{4, r.rng(2, 8)}, {3, r.rng(9, 21)}, {4, r.rng(22, 34)}});
+  int nlines = (int)r.pick({{3, r.rng(2, 8)}, {2, r.rng(9, 21)}, {5, r.rng(24, 36)}});
   for (int i = 0; i < nlines; ++i) {
-    switch (r.pick({{10, 0}, {2, 1}, {3, 2}, {6, 3}, {5, 4}, {2, 5}, {1, 6}})) {
+    switch (r.pick({{12, 0}, {1, 1}, {2, 2}, {5, 3}, {5, 4}, {2, 5}, {1, 6}})) {
       case 0: command(); break;
       case 1: break;                                             // blank line
       case 2: if (r.chance(1, 5)) { word(23); word(24); } else word(10); if (r.chance(1, 8)) edit(); break;   // history
